@@ -30,7 +30,7 @@ def run(tier, seed):
     tools.build()
     apidriver.build()
     rng = chk.rng("corpus")
-    ngen = {"quick": 40, "thorough": 500}[tier]
+    ngen = {"quick": 60, "thorough": 500}[tier]
     items = corpus.generated(rng, ngen) + corpus.repo_files(12000)
     if tier == "quick":
         items = items[:ngen] + rng.sample(items[ngen:], min(25, len(items) - ngen))
